@@ -13,7 +13,8 @@
 // client has closed its side, a healthy session opened before the input still
 // answers a text query and a prepared statement correctly afterwards, a new
 // session can still be opened, the backend pool slots and the number of
-// goroutines running proxy code return to their values from before the input.
+// goroutines that belong to client sessions return to their values from
+// before the input.
 //
 // A panic that Gaea recovers (Session.Run, Server.onConn, handleQuery) and that
 // only closes the offending client's connection is not a violation.
@@ -314,7 +315,11 @@ func (f *fixture) poolInUse() int64 {
 	return sl.Master.Nodes[0].ConnPool.InUse()
 }
 
-// proxyGoroutines counts the goroutines that are running Gaea code and returns their entry points.
+// proxyGoroutines counts the goroutines that belong to client sessions of the proxy: those running
+// Server.onConn (one per open session) and those started by session code (SessionExecutor / Session
+// methods: the per-statement workers). Background goroutines of the proxy (listener, health checks of the
+// slices and their ping helpers, statistics tickers, pool maintenance) come and go independently of any
+// client input and are not counted.
 func proxyGoroutines() (int, map[string]int) {
 	buf := make([]byte, 1<<20)
 	for {
@@ -328,25 +333,28 @@ func proxyGoroutines() (int, map[string]int) {
 	count := 0
 	sig := map[string]int{}
 	for _, g := range strings.Split(string(buf), "\n\n") {
-		if !strings.Contains(g, "github.com/XiaoMi/Gaea/") {
+		created := ""
+		if k := strings.Index(g, "\ncreated by "); k >= 0 {
+			created = g[k+len("\ncreated by "):]
+			if e := strings.IndexAny(created, " \n"); e > 0 {
+				created = created[:e]
+			}
+		}
+		session := strings.Contains(g, "proxy/server.(*Server).onConn(") ||
+			strings.Contains(created, "proxy/server.(*SessionExecutor).") || strings.Contains(created, "proxy/server.(*Session).")
+		if !session {
 			continue
 		}
 		count++
 		// signature: the innermost Gaea frame and the creating function
-		lines := strings.Split(g, "\n")
-		inner, created := "", ""
-		for _, l := range lines {
-			if strings.HasPrefix(l, "github.com/XiaoMi/Gaea/") && inner == "" {
+		inner := ""
+		for _, l := range strings.Split(g, "\n") {
+			if strings.HasPrefix(l, "github.com/XiaoMi/Gaea/") {
 				inner = l
 				if k := strings.LastIndexByte(inner, '('); k > 0 {
 					inner = inner[:k]
 				}
-			}
-			if strings.HasPrefix(l, "created by ") {
-				created = strings.TrimPrefix(l, "created by ")
-				if k := strings.Index(created, " in goroutine"); k > 0 {
-					created = created[:k]
-				}
+				break
 			}
 		}
 		sig[strings.TrimPrefix(inner, "github.com/XiaoMi/Gaea/")+" <- "+strings.TrimPrefix(created, "github.com/XiaoMi/Gaea/")]++
@@ -426,9 +434,7 @@ func (f *fixture) runFuzzConn(c c38Case, budget time.Duration) (res connOutcome)
 		res.authOK = true
 	}
 	defer nc.Close()
-	for i := range c.Cmds {
-		wire = append(wire, frame(c.Cmds[i].payload(), 0, c.Cmds[i].Frame)...)
-	}
+	wire = append(wire, c.cmdWire()...)
 
 	// read everything the proxy sends until it closes the connection
 	done := make(chan struct{})
@@ -523,18 +529,36 @@ func splitterLoops(text []byte) bool {
 	return false
 }
 
+// cmdWire is the byte stream of the command packets as written to the socket.
+func (c c38Case) cmdWire() []byte {
+	var wire []byte
+	for i := range c.Cmds {
+		wire = append(wire, frame(c.Cmds[i].payload(), 0, c.Cmds[i].Frame)...)
+	}
+	return wire
+}
+
+// matchesF1 cuts the command byte stream into packets the way the proxy does (announced lengths, so a
+// wrong length moves the boundaries) and reports whether a COM_QUERY / COM_STMT_PREPARE text it will see has
+// the shape of C38-F1.
 func (c c38Case) matchesF1() bool {
-	if c.Handshake != nil && c.Handshake.Caps&capMultiStmts == 0 {
+	if c.Handshake != nil && (c.Handshake.Caps&capMultiStmts == 0 || c.Handshake.Frame.Mode != "") {
 		return false
 	}
-	for i := range c.Cmds {
-		cm := &c.Cmds[i]
-		if (cm.Cmd == comQuery || cm.Cmd == comStmtPrepare) && cm.Frame.Mode == "" {
-			p := cm.payload()
-			if len(p) > 1 && splitterLoops(p[1:]) {
-				return true
-			}
+	w := c.cmdWire()
+	for len(w) >= 4 {
+		n := int(w[0]) | int(w[1])<<8 | int(w[2])<<16
+		if n == 0 || w[3] != 0 || n == 0xffffff || len(w) < 4+n {
+			return false // empty packet, wrong sequence id, multi-frame or incomplete packet: the session ends here
 		}
+		p := w[4 : 4+n]
+		if (p[0] == comQuery || p[0] == comStmtPrepare) && splitterLoops(p[1:]) {
+			return true
+		}
+		if p[0] == comQuit {
+			return false
+		}
+		w = w[4+n:]
 	}
 	return false
 }
@@ -747,7 +771,7 @@ func checkC38Sub(sub string, c c38Case) (o pbt.Outcome) {
 		}
 		if time.Now().After(deadline) {
 			if g > g0 && g0 >= 0 {
-				o.Violation = fmt.Sprintf("goroutines running proxy code did not return to the baseline: %d before the input, %d more than 8 s after it (%s)", g0, g, diffSigs(sig0, sig))
+				o.Violation = fmt.Sprintf("goroutines of client sessions (Server.onConn and workers started by session code) did not return to the baseline: %d before the input, %d more than 8 s after it (%s)", g0, g, diffSigs(sig0, sig))
 			} else {
 				o.Violation = fmt.Sprintf("backend connections taken from the pool did not return: %d in use before the input, %d more than 8 s after it", inUse0, inUse)
 			}
